@@ -2,7 +2,17 @@
    scalar values.  std::path::Path::{parent,file_name} are modelled on the domain the
    property speaks about: paths made of plain components joined by single '/', with an
    optional trailing '/', and the degenerate strings "", "/", "..", ".".  Every other
-   string is [PUnmodelled] (the correspondence only checks "returns, no panic" there). *)
+   string is [QUnmodelled] (the correspondence only checks "returns, no panic" there).
+
+   The two panic sites of the code - `value.to_str().unwrap()` in get_parent_as_string and
+   get_file_name (src/localization.rs:10, :18) - are modelled: [os_to_str] is OsStr::to_str
+   (Some iff the OS string is valid Unicode) and a None there is the outcome [LPanic].
+   Assumption A-fs (UTF-8 slices): the &OsStr values that Path::parent / Path::file_name return for a
+   path built with Path::new(&str) are sub-slices of that str cut next to '/' bytes; '/' is ASCII, so
+   such a cut never falls inside a multi-byte sequence and the slice is a str again.  In this model
+   (strings = lists of scalar values) that reads: the slices are sub-LISTS of the caller's string
+   ([path_parent] / [path_file_name] below; Proofs/LocalizeProofs.v proves they are, and that
+   [os_to_str] therefore never fails on a valid caller string: C14_no_panic). *)
 From Coq Require Import List NArith Bool.
 Import ListNotations.
 Local Open Scope N_scope.
@@ -15,7 +25,13 @@ Inductive game := GNoOp | GFE9 | GFE10 | GFE13 | GFE14 | GFE15.
 Inductive lang := EnglishNA | EnglishEU | Japanese | Spanish | French | Italian | German | Dutch.
 
 Inductive lerr := LMissingParent | LMissingFileName | LUnsupportedLanguage.
-Inductive lres := LOk (s : str) | LErr (e : lerr) | LUnmodelled.
+Inductive lres := LOk (s : str) | LErr (e : lerr) | LPanic | LUnmodelled.
+
+(* a Rust `char` is a Unicode scalar value: a code point that is not a surrogate; a `str` is a sequence of them *)
+Definition scalar (c : N) : bool := orb (c <? 55296) (andb (57343 <? c) (c <? 1114112)).
+Definition valid_str (s : str) : bool := forallb scalar s.
+(* OsStr::to_str: Some(the same characters) iff the OS string is valid Unicode *)
+Definition os_to_str (o : str) : option str := if valid_str o then Some o else None.
 
 (* ASCII helper *)
 Definition s_ (l : list N) : str := l.
@@ -124,23 +140,56 @@ Fixpoint join (cs : list str) : str :=
   | c :: r => c ++ SLASH :: join r
   end.
 
-(* get_parent_and_file_name on the modelled domain:
-   Path::parent / Path::file_name, then "if parent is empty: (file_name, "")" *)
-Inductive pf := PFOk (dir file : str) | PFErr (e : lerr) | PFUnmodelled.
+(* Path::parent / Path::file_name on the modelled domain: Some(&OsStr slice) / None / outside the model.
+   parent: "" and "/" have none, ".." and "." have the empty parent, a plain path everything before the last
+   component (without the separating '/'; empty for a single component).  file_name: the last plain component
+   (a trailing '/' is ignored); None when the path ends in ".." or is "", "/", "." *)
+Inductive pathq := QSome (v : str) | QNone | QUnmodelled.
+Definition path_parent (s : str) : pathq :=
+  match classify s with
+  | SEmpty => QNone                         (* Path::new("").parent() = None *)
+  | SRoot => QNone                          (* "/" has no parent *)
+  | SDotDot => QSome []                     (* parent = Some("") *)
+  | SDot => QSome []
+  | SOther => QUnmodelled
+  | SPlain comps _ => match rev comps with [] => QUnmodelled | _ :: rinit => QSome (join (rev rinit)) end
+  end.
+Definition path_file_name (s : str) : pathq :=
+  match classify s with
+  | SEmpty | SRoot | SDotDot | SDot => QNone
+  | SOther => QUnmodelled
+  | SPlain comps _ => match rev comps with [] => QUnmodelled | file :: _ => QSome file end
+  end.
+
+(* get_parent_as_string / get_file_name: `Some(value) => Ok(value.to_str().unwrap().to_string())`, `None => Err(..)` *)
+Inductive sres := SOk (s : str) | SErr (e : lerr) | SPanic | SUnmodelled.
+Definition get_parent_as_string (s : str) : sres :=
+  match path_parent s with
+  | QSome v => match os_to_str v with Some t => SOk t | None => SPanic end      (* localization.rs:10 *)
+  | QNone => SErr LMissingParent
+  | QUnmodelled => SUnmodelled
+  end.
+Definition get_file_name (s : str) : sres :=
+  match path_file_name s with
+  | QSome v => match os_to_str v with Some t => SOk t | None => SPanic end      (* localization.rs:18 *)
+  | QNone => SErr LMissingFileName
+  | QUnmodelled => SUnmodelled
+  end.
+
+(* get_parent_and_file_name: parent first (`?`), then the file name (`?`), then "if parent is empty: (file_name, "")" *)
+Inductive pf := PFOk (dir file : str) | PFErr (e : lerr) | PFPanic | PFUnmodelled.
 
 Definition parent_and_file (s : str) : pf :=
-  match classify s with
-  | SEmpty => PFErr LMissingParent          (* Path::new("").parent() = None *)
-  | SRoot => PFErr LMissingParent           (* "/" has no parent *)
-  | SDotDot => PFErr LMissingFileName       (* parent = Some(""), file_name = None *)
-  | SDot => PFErr LMissingFileName
-  | SOther => PFUnmodelled
-  | SPlain comps _ =>
-    match rev comps with
-    | [] => PFUnmodelled
-    | file :: rinit =>
-      let parent := join (rev rinit) in
-      if str_eqb parent [] then PFOk file [] else PFOk parent file
+  match get_parent_as_string s with
+  | SErr e => PFErr e
+  | SPanic => PFPanic
+  | SUnmodelled => PFUnmodelled
+  | SOk parent =>
+    match get_file_name s with
+    | SErr e => PFErr e
+    | SPanic => PFPanic
+    | SUnmodelled => PFUnmodelled
+    | SOk file => if str_eqb parent [] then PFOk file [] else PFOk parent file
     end
   end.
 
@@ -150,6 +199,7 @@ Definition localize (g : game) (l : lang) (path : str) : lres :=
   | _ =>
     match parent_and_file path with
     | PFErr e => LErr e
+    | PFPanic => LPanic
     | PFUnmodelled => LUnmodelled
     | PFOk dir file =>
       match infix g l with
